@@ -15,7 +15,7 @@ for line in listing.splitlines():
 idx = [v for v in json.load(open(out + "/index.json")) if not v["name"].startswith("agent_")]
 for f in glob.glob(out + "/agent_*.patch"): os.remove(f)
 n = 0
-for d in sorted(glob.glob("/verif/seeded/C*")):
+for d in sorted(x for x in glob.glob("/verif/seeded/C*") if not x.endswith(".obsolete")):
     meta = json.load(open(d + "/meta.json"))
     if not meta.get("detected"): continue
     props, rules = meta["caught_by_properties"], meta["caught_by_rules"]
